@@ -218,6 +218,22 @@ fn commit_staging_dir(staging_dir: &Path, output_dir: &Path) -> Result<()> {
     commit_staging_dir_impl(staging_dir, output_dir, |src, dst| fs::rename(src, dst))
 }
 
+/// Verification hooks (off by default): public entries to the staging-directory
+/// creation and the injectable publish routine for external fault-injection monitors.
+#[cfg(feature = "verif-hooks")]
+pub fn verif_create_staging_dir(output_dir: &Path) -> Result<PathBuf> {
+    create_staging_dir(output_dir)
+}
+
+#[cfg(feature = "verif-hooks")]
+pub fn verif_commit_staging_dir_impl(
+    staging_dir: &Path,
+    output_dir: &Path,
+    rename: impl Fn(&Path, &Path) -> std::io::Result<()>,
+) -> Result<()> {
+    commit_staging_dir_impl(staging_dir, output_dir, rename)
+}
+
 /// [`commit_staging_dir`] with an injectable rename for rollback tests.
 fn commit_staging_dir_impl(
     staging_dir: &Path,
